@@ -254,6 +254,11 @@ func cmdSelftest(args []string) int {
 				bad += n
 			}
 		}
+		if rr := runRefactors(vdir, *repo, p); rr != nil {
+			if n, _ := rr["false_alarm"].(int); n > 0 {
+				bad += n
+			}
+		}
 		if n, _ := res["missed"].(int); n > 0 {
 			bad += n
 		}
@@ -490,4 +495,93 @@ func cmdTryPatch(args []string) int {
 		return 1
 	}
 	return 0
+}
+
+// ---------------------------------------------------------------------------
+// Replay of the behaviour-preserving refactorings kept under /verif/refactors (produced independently: each is
+// argued to preserve behaviour for every input, fault and interleaving, builds, and passes the existing tests).
+// Every check should stay silent on them. meta.json records the properties whose check is known to raise an alarm
+// on a given refactoring ("verif_alarms": a documented limit of the intra-procedural rules, see DESIGN.md 10.7);
+// any other alarm is reported as a false alarm. Informational, like the mutants.
+
+type refactorResult struct {
+	ID     string `json:"id"`
+	Status string `json:"status"` // silent | documented-alarm | falsealarm | skipped
+	Detail string `json:"detail,omitempty"`
+}
+
+func runRefactors(vdir, repo, prop string) map[string]any {
+	if os.Getenv("CJVERIF_MUTANT") != "" {
+		return nil
+	}
+	exe, err := os.Executable()
+	if err != nil {
+		return map[string]any{"error": err.Error()}
+	}
+	dirs, _ := filepath.Glob(filepath.Join(vdir, "refactors", "*"))
+	sort.Strings(dirs)
+	results := make([]refactorResult, len(dirs))
+	var wg sync.WaitGroup
+	sem := make(chan struct{}, 4)
+	for i, d := range dirs {
+		wg.Add(1)
+		go func(i int, d string) {
+			defer wg.Done()
+			sem <- struct{}{}
+			defer func() { <-sem }()
+			id := filepath.Base(d)
+			var meta struct {
+				Alarms []string `json:"verif_alarms"`
+			}
+			if b, err := os.ReadFile(filepath.Join(d, "meta.json")); err == nil {
+				_ = json.Unmarshal(b, &meta)
+			}
+			ctx, cancel := context.WithTimeout(context.Background(), 3*time.Minute)
+			defer cancel()
+			cmd := exec.CommandContext(ctx, exe, "trypatch", "-patch", filepath.Join(d, "patch.diff"), "-property", prop, "-repo", repo)
+			cmd.Env = append(os.Environ(), "VERIF_DIR="+vdir, "CJVERIF_MUTANT=1")
+			out, err := cmd.CombinedOutput()
+			code := 0
+			if err != nil {
+				if ee, ok := err.(*exec.ExitError); ok {
+					code = ee.ExitCode()
+				} else {
+					results[i] = refactorResult{id, "skipped", err.Error()}
+					return
+				}
+			}
+			switch code {
+			case 0:
+				results[i] = refactorResult{id, "silent", ""}
+			case 1:
+				first := ""
+				for _, line := range strings.Split(string(out), "\n") {
+					if strings.Contains(line, "violated") || strings.Contains(line, "undecided") {
+						first = strings.TrimSpace(firstN(line, 200))
+						break
+					}
+				}
+				st := "falsealarm"
+				for _, a := range meta.Alarms {
+					if a == prop {
+						st = "documented-alarm"
+					}
+				}
+				results[i] = refactorResult{id, st, first}
+			default:
+				results[i] = refactorResult{id, "skipped", firstLines(string(out), 2)}
+			}
+		}(i, d)
+	}
+	wg.Wait()
+	counts := map[string]int{}
+	for _, r := range results {
+		counts[r.Status]++
+		if r.Status != "silent" {
+			fmt.Printf("  refactoring %-8s %-16s %s\n", r.ID, r.Status, firstN(r.Detail, 170))
+		}
+	}
+	fmt.Printf("  refactorings: %d silent, %d documented alarm(s), %d false alarm(s), %d skipped\n", counts["silent"], counts["documented-alarm"], counts["falsealarm"], counts["skipped"])
+	return map[string]any{"refactorings": len(dirs), "silent": counts["silent"], "documented_alarm": counts["documented-alarm"], "false_alarm": counts["falsealarm"], "skipped": counts["skipped"], "results": results,
+		"note": "replay of independently produced behaviour-preserving refactorings kept under /verif/refactors; the check should stay silent on each; informational"}
 }
